@@ -464,7 +464,7 @@ def finish(prop_id, mod, tier, seed, keys, results, t0):
         "task_keys": keys if len(keys) <= 60 else keys[:60] + [f"... {len(keys) - 60} more"],
         "known_findings_reported": [k["what"] for k in known_hits],
         "undecided": [f"{k}: {m.splitlines()[0] if m else ''}" for k, m in undecided][:20],
-        "explanation": getattr(mod, "EXPLANATION", ""),
+        "explanation": getattr(mod, "EXPLANATION", "") or (getattr(mod, "LEVEL_TEXT", "") + " | obligations discharged deductively: " + str(n_dis) + "/" + str(n_obl) + "; bounded stand-in cases (not counted as proved): " + str(len(bounded))),
     }
     if bounded:
         nontriv = len({json.dumps(b.get("case", b.get("name")), sort_keys=True, default=str) for b in bounded})
